@@ -12,6 +12,16 @@ CLAIMED = {
             "executed on the real functions and compared bit-for-bit with an independently computed index map; because the "
             "operations are data-oblivious this decides the property for all values of those shapes. Beyond the bound: nothing.",
             "Trusted: NumPy indices/scatter, CPython. NumPy backend only.", "DESIGN.md §2 C01"),
+    "C02": ("runtime formula monitor on dispatched tenalg calls + cross-backend differential",
+            "Seeded workloads over enumerated option classes call the real dispatched functions under both tenalg backends; each "
+            "result is compared with an explicit einsum index formula under a backward-error bound and the two backends with each "
+            "other. Held on the sampled cases only (orders 1-4, sizes 1-4).",
+            "Trusted: numpy.einsum with explicit subscripts. Restrictions listed in evidence.assumptions.", "DESIGN.md §2 C02"),
+    "C03": ("runtime formula monitor on conversions/views of factorised tensors; rejection monitor for invalid sets",
+            "Seeded factor sets for six formats (tuple and wrapper form, both tenalg backends) are converted by the real code and "
+            "compared with the defining contraction; every unfolding/vec/matrix/slice view, wrapper shape/rank and factor-based "
+            "norm is compared with the reference dense tensor; 15 kinds of invalid sets must raise. Sampled, small sizes.",
+            "Trusted: numpy.einsum, explicit index-map unfolding.", "DESIGN.md §2 C03"),
 }
 
 PENDING_REASON = "check not built yet in this session; see DESIGN.md §2 for the planned monitor"
